@@ -29,7 +29,24 @@ from typing import Any
 import htmltools
 from htmltools import HTML, HTMLDependency, MetadataNode, Tag, TagList
 
+import enum as _enum
+
+
+class _Level(_enum.IntEnum):
+    HIGH = 3
+
+
+class _Perm(_enum.IntFlag):
+    R = 4
+
+
+class _Money(float):
+    def __str__(self):
+        return "$" + format(float(self), ".2f")
+
+
 SPECIAL_NUMBERS = {
+    "intenum": _Level.HIGH, "intflag": _Perm.R, "floatsub": _Money(2.5), "-0.0": -0.0,
     "nan": float("nan"), "inf": float("inf"), "-inf": float("-inf"),
     "1e21": 1e21, "10**30": 10 ** 30, "True": True, "False": False,
 }
